@@ -85,6 +85,8 @@ def build(spec):
         return dec_str(spec[1])
     if k == "bytes":
         return bytes.fromhex(spec[1])
+    if k == "spaces":
+        return " " * int(spec[1])             # n blanks, for text too large to spell out in a case
     if k == "zeros":
         return bytes(int(spec[1]))            # n zero bytes, for values too large to spell out in a case
     if k == "dt":
